@@ -189,11 +189,7 @@ package tchannel
 // enabled: the relayer is never handed one otherwise. (Relay is ASSUMED, see
 // the C20 file; this second trusted contract is conjoined with that one and
 // adds the hand-over precondition, checked in handleFrameRelay.)
-//@ func (r *Relayer) Relay(f *Frame) (shouldRelease bool, err error)
-//@   trusted
-//@   label cancel-frames-relayed-only-when-enabled
-//@   requires f.Header.messageType == messageTypeCancel ==> r.conn.opts.PropagateCancel
-//@   ensures r.conn == old(r.conn) && r.conn.log == old(r.conn.log)
+// (Relayer.Relay: verified contract in verif_contracts_relay.go)
 
 // (handleFrameNoRelay is under contract in the C20 file)
 
